@@ -32,7 +32,7 @@ ALL_FEATURES = {"comment", "semi", "chain", "augprec", "collide", "impure", "liv
 ALL_FAMILIES = {"enc", "fac", "mo", "ltf", "uf"}
 INVARIANTS = ["TypeOK", "Prog0Runs", "ObsPreserved", "RefusedUnchanged", "WritesBecomeSetters",
               "ReadsBecomeGetters", "TargetHasSite"]
-LAYOUT_TOKENS = ("NL", "IN", "DE", "#c", "NLC", "BSL")
+LAYOUT_TOKENS = ("NL", "IN", "DE", "#c", "NLC", "BSL", "DD")
 KEYWORDS_SPACE = ("return", "import", "from", "in", "class", "def")
 
 
@@ -92,6 +92,10 @@ def render(tokens, layout=0):
             elif layout == 2:
                 blank(1)
             continue
+        if t == "DD":          # end of a one-line definition
+            if indent == 0:
+                blank({0: 1, 1: 0, 2: 2}[layout])
+            continue
         if t == "#c":
             cur += "  # c"
             continue
@@ -130,7 +134,7 @@ def check_render(text, tokens, offsets):
     got = []
     try:
         for tk in tokenize.generate_tokens(io.StringIO(text).readline):
-            if tk.type in (tokenize.NAME, tokenize.NUMBER, tokenize.OP):
+            if tk.type in (tokenize.NAME, tokenize.NUMBER, tokenize.OP, tokenize.STRING):
                 got.append((tk.string, line_starts[tk.start[0] - 1] + tk.start[1]))
     except (tokenize.TokenError, IndentationError, SyntaxError) as e:
         return "rendered text does not tokenize: %s" % e
@@ -472,9 +476,14 @@ def main(tier):
             if b["fam"] != "enc" or b["feats"] or rnd.random() < 0.3:
                 chosen.append(b)
     items = []
+    seen_in_stratum = {}
     for b in chosen:
+        # the four layouts in turn within every (family, variant, target) stratum
+        sk = json.dumps([b["fam"], b["variant"], b["req"]["tgt"], b["req"]["glob"]])
+        j = seen_in_stratum.get(sk, rnd.randrange(0, 4))
+        seen_in_stratum[sk] = j + 1
         for s in pick_sites(b, rnd, tier):
-            items.append((b, s, rnd.randrange(0, 8), rnd.randrange(0, 4)))
+            items.append((b, s, rnd.randrange(0, 8), j % 4))
     # group by program so that a worker's run cache is hit
     items.sort(key=lambda it: json.dumps([it[0]["fam"], it[0]["variant"], it[0]["imp"], it[0]["sa"], it[0]["sb"],
                                           it[3]]))
